@@ -601,3 +601,82 @@ fn edit_expr(e: &mut E, n: &mut isize) -> bool {
         E::Call(_, args, _) => args.iter_mut().any(|a| edit_expr(a, n)),
     }
 }
+
+// ------------------------------------------------ resolved names (T5 tie)
+
+/// Every variable renamed to `x<level>`, where the level of a declaration is the number of
+/// variables visible at that point (parameters are 0, 1, …): the number
+/// `Model/C01Resolve.resolve` gives the variable, and the name the lowering model prints.
+/// The result is the same program up to the names of its variables.
+pub fn rename_levels(p: &Prog) -> Prog {
+    fn var(scope: &[String], x: &str) -> String {
+        match scope.iter().rposition(|y| y == x) {
+            Some(i) => format!("x{i}"),
+            None => x.to_string(),
+        }
+    }
+    fn blk(b: &Blk, scope: &mut Vec<String>) -> Blk {
+        let depth = scope.len();
+        let mut stmts = vec![];
+        for s in &b.stmts {
+            match s {
+                S::Let(x, t, ann, e) => {
+                    let e2 = expr(e, scope);
+                    let name = format!("x{}", scope.len());
+                    scope.push(x.clone());
+                    stmts.push(S::Let(name, *t, *ann, e2));
+                }
+                S::Do(e) => stmts.push(S::Do(expr(e, scope))),
+            }
+        }
+        let last = b.last.as_ref().map(|e| Box::new(expr(e, scope)));
+        scope.truncate(depth);
+        Blk { stmts, last }
+    }
+    fn expr(e: &E, scope: &mut Vec<String>) -> E {
+        match e {
+            E::Lit { .. } => e.clone(),
+            E::Var(x, t) => E::Var(var(scope, x), *t),
+            E::Neg(a) => E::Neg(Box::new(expr(a, scope))),
+            E::Not(a) => E::Not(Box::new(expr(a, scope))),
+            E::Bin(op, l, r) => {
+                let l2 = expr(l, scope);
+                let r2 = expr(r, scope);
+                E::Bin(*op, Box::new(l2), Box::new(r2))
+            }
+            E::If(c, t, el) => {
+                let c2 = expr(c, scope);
+                let t2 = blk(t, scope);
+                let e2 = el.as_ref().map(|b| blk(b, scope));
+                E::If(Box::new(c2), t2, e2)
+            }
+            E::While(c, b) => {
+                let c2 = expr(c, scope);
+                E::While(Box::new(c2), blk(b, scope))
+            }
+            E::Block(b) => E::Block(blk(b, scope)),
+            E::Call(f, args, t) => E::Call(f.clone(), args.iter().map(|a| expr(a, scope)).collect(), *t),
+            E::Set(x, v) => {
+                let v2 = expr(v, scope);
+                E::Set(var(scope, x), Box::new(v2))
+            }
+            E::CSet(op, x, v) => {
+                let v2 = expr(v, scope);
+                E::CSet(*op, var(scope, x), Box::new(v2))
+            }
+            E::Ret(v) => E::Ret(Box::new(expr(v, scope))),
+        }
+    }
+    Prog {
+        fns: p
+            .fns
+            .iter()
+            .map(|f| {
+                let mut scope: Vec<String> = f.params.iter().map(|(x, _)| x.clone()).collect();
+                let params = f.params.iter().enumerate().map(|(i, (_, t))| (format!("x{i}"), *t)).collect();
+                let body = blk(&f.body, &mut scope);
+                Func { name: f.name.clone(), params, ret: f.ret, body }
+            })
+            .collect(),
+    }
+}
